@@ -550,4 +550,48 @@ theorem demo_exact_cached :
   rw [demo_exact_c15.1] at this
   cases this
 
+/-! ## 7. an announced chunk-size above the cap is a framing error AT THE SIZE LINE (seed C17-e) -/
+
+/-- the chunk-size line is accepted only for a size within the cap -/
+theorem sizeLine_ok_le_cap (buf : Bytes) (cap pos n ds : Nat) (h : Http.sizeLine buf cap pos = .ok n ds) : n ≤ cap := by
+  unfold Http.sizeLine at h
+  split at h
+  · cases h
+  · simp only at h
+    repeat' (split at h)
+    all_goals first
+      | (cases h; done)
+      | (cases h; omega)
+
+/-- `advanceChunked` waits for chunk DATA (NeedMore after a complete size line) only for an announced size within the cap: a
+size line announcing more is answered `Malformed` in the very iteration that parses it, however many data bytes follow -/
+theorem chunkStep_needMore_within_cap (buf : Bytes) (cap : Nat) (st : Http.ChunkState)
+    (h : Http.chunkStep buf cap st = .needMore) :
+    Http.sizeLine buf cap st.pos = .noLF ∨ ∃ n ds, Http.sizeLine buf cap st.pos = .ok n ds ∧ n ≤ cap := by
+  cases hs : Http.sizeLine buf cap st.pos with
+  | noLF => exact .inl rfl
+  | bad => simp [Http.chunkStep, hs] at h
+  | ok n ds => exact .inr ⟨n, ds, rfl, sizeLine_ok_le_cap buf cap st.pos n ds hs⟩
+
+/-- the witness of seed C17-e (the body part): chunk-size `7FFFFFFF`, five data bytes, then nothing -/
+def demoChunkOverCap : Bytes := Http.ascii "7FFFFFFF\r\nhello"
+
+/-- byte level, concrete: with the default cap (16 MiB) the size line alone makes the iteration `Malformed`; `FFFFFFFFFFFFFFFF`
+and cap + 1 likewise; a size within the cap whose data has not arrived is `NeedMore` (non-vacuity) -/
+theorem demo_chunk_over_cap_step :
+    Http.chunkStep demoChunkOverCap 16777216 {} = .malformed ∧
+    Http.chunkStep (Http.ascii "FFFFFFFFFFFFFFFF\r\nhello") 16777216 {} = .malformed ∧
+    Http.chunkStep (Http.ascii "1000001\r\nhello") 16777216 {} = .malformed ∧
+    Http.chunkStep (Http.ascii "1000000\r\nhello") 16777216 {} = .needMore := by
+  decide
+
+/-- ... and so does `advanceChunked` as a whole -/
+theorem demo_chunk_over_cap_advance :
+    (Http.advanceChunked demoChunkOverCap 16777216 {}).1 = .malformed := by
+  rw [Http.advanceChunked]
+  have h : Http.chunkStep demoChunkOverCap 16777216 {} = .malformed := demo_chunk_over_cap_step.1
+  have hl : ({} : Http.ChunkState).pos < demoChunkOverCap.length := by decide
+  simp only [hl, ↓reduceDIte]
+  split <;> simp_all
+
 end Iora.HttpRetry.Link
